@@ -7,12 +7,11 @@ CONSTANTS
   AnyOrder = FALSE
   NB = 1
   MaxOps = 0
-  Record = TRUE
+  Record = FALSE
   Slice = 0
   NSlices = 1
 INVARIANT Refines
 INVARIANT DocsUnmodified
 INVARIANT CtxStable
 INVARIANT NoSharing
-INVARIANT Emit
 CHECK_DEADLOCK FALSE
